@@ -444,6 +444,55 @@ func runC13(r *mc.Run) {
 		add("trailing/inside-tcb-component", base, assemble(base, stdOrder, t, top), wantErrorOrExact)
 		add("trailing/tcb-19-elements", base, assemble(base, stdOrder, append(append([][]byte(nil), tcb...), tcb[0]), top), wantErrorOrExact)
 	}
+	// unknown members whose final arc is a known member's arc plus a multiple of 256 / 65536 / 2^32 (an identifier is
+	// all of its arcs at full width), placed before and after the genuine members, holding a value of the known shape
+	for _, big := range []int{256, 512, 65536, 1 << 32} {
+		for arc := 1; arc <= 4; arc++ {
+			val := [][]byte{nil, world.DEROctet(bytes.Repeat([]byte{0xde}, 16)), world.SGXTcbElem(tcb)[0:0], world.DEROctet([]byte{0xbe, 0xef}), world.DEROctet(bytes.Repeat([]byte{0xad}, 6))}[arc]
+			if arc == 2 {
+				// a TCB-shaped SEQUENCE with zeroed SVNs
+				zeroPlat := base
+				zeroPlat.CPUSVN, zeroPlat.PCESVN = [16]byte{}, 0
+				_, ztcb := world.SGXElems(zeroPlat)
+				full := world.SGXTcbElem(ztcb) // SEQUENCE { OID tcb, SEQUENCE {...} }: take its value part below
+				val = full
+			}
+			var member []byte
+			if arc == 2 {
+				// re-label the whole TCB element with the large arc
+				inner := val[2:]
+				if val[1]&0x80 != 0 {
+					inner = val[2+int(val[1]&0x7f):]
+				}
+				// inner = OID TLV || value TLV ; replace the OID TLV
+				oidLen := 2 + int(inner[1])
+				member = world.DERSeq(world.DEROID([]int{1, 2, 840, 113741, 1, 13, 1, big + arc}), inner[oidLen:])
+			} else {
+				member = world.DERSeq(world.DEROID([]int{1, 2, 840, 113741, 1, 13, 1, big + arc}), val)
+			}
+			for _, where := range []string{"after", "before"} {
+				var seq [][]byte
+				if where == "before" {
+					seq = append(seq, member)
+				}
+				for _, k := range stdOrder {
+					if k == "tcb" {
+						seq = append(seq, world.SGXTcbElem(tcb))
+					} else {
+						seq = append(seq, top[k])
+					}
+				}
+				if where == "after" {
+					seq = append(seq, member)
+				}
+				want := wantExact
+				if big >= 1<<31 {
+					want = wantErrorOrExact // Go's decoder refuses arcs beyond 31 bits: an error is acceptable there
+				}
+				add(fmt.Sprintf("large-arc/1.13.1.%d-%s", big+arc, where), base, world.DERSeq(seq...), want)
+			}
+		}
+	}
 	// other but equivalent length encodings (BER long forms where DER wants the short form), one node at a time:
 	// every node of the extension re-encoded with a 0x81 / 0x82 length; and INTEGER values with a superfluous
 	// leading zero octet. A strict decoder refuses them; one that accepts must still give the encoded values
